@@ -339,7 +339,12 @@ class Worker:
 
             if box.has_task_waiting:
                 assert box.dest_addr is not None
-                task = self._tasks[box.dest_addr]
+                task = self._tasks.get(box.dest_addr)
+
+                if task is None:
+                    # The waiting task was cancelled (and this mailbox
+                    # dropped) after the mailbox lookup above.
+                    return
 
                 if task.wake_on_next or box.ready:
                     # print(f'Worker {self._id} is waking task
